@@ -13,7 +13,7 @@ RULE = ("T-gen: tools/extractflow re-emits serveSign, signCmd, PublishAudit, App
         "`wp` (sound for every program, every sink configuration, every fault script: wp_sound) is run on them by `decide`. "
         "Dynamic: real handler behind httptest TLS with client certificates, fake token (ECDSA + RSA/PGP keys), signers cosign/ps/pgp; "
         "every audit-file mode {ok, none, missing directory, directory instead of file, parent is a regular file, /dev/full (ENOSPC on write), "
-        "symlink loop} x every broker mode {none, in-process AMQP 0-9-1 broker acking, nacking, accept-then-close, closed port} x "
+        "symlink loop} x every broker mode {none, in-process AMQP 0-9-1 broker acking, nacking, refusing the publish by channel.close 403 / connection.close 320 / dropping the TCP connection (no confirm ever sent), accept-then-close, closed port} x "
         "valid/invalid request mixes, sequential (record must be in the file when the response arrives) and concurrent (up to 64 clients, "
         "with pre-existing lines); observed: status per request, audit lines and broker messages parsed as JSON and matched by client.filename, "
         "fields compared with key/sigtype/digest/certificate/client/filename and with the returned signature (cosign certificate+digest, "
@@ -39,7 +39,7 @@ TRUSTED = ["tools/extractaudit (go/ast -> def-use facts as expression texts; wha
            "tools/extractflow (go/ast -> Lean term; output is human-readable, every line carries the Go source line)",
            "Relic.Model.SignFlow semantics of the primitives (events of Sign/PublishAudit/AppendTo/ResponseWrite)",
            "fake AMQP broker and fake token in harness/c06"]
-UNPROVED = ["marshal_keeps_members_full", "signCmd_record_names_file_full (refuted: signCmd_record_names_file_false)"]
+UNPROVED = ["marshal_keeps_members_full"]
 IMPL_PARALLEL = 8
 IMPL_TIMEOUT = 1200
 EXTRA_MODULES = ()
